@@ -1018,9 +1018,9 @@ class Script:
             r2 = rng.random()
             if self.all_twins or r2 < p.get("twin_names", 0.12):
                 name = "twin"                              # several agents may use one name (and role)
-            elif r2 < p.get("twin_names", 0.12) + 0.02:
+            elif r2 < p.get("twin_names", 0.12) + p.get("long_names", 0.02):
                 name = "n" * rng.choice([5000, 7800])      # a long name (the request still fits one read of 8192 bytes, the welcome message does not)
-            elif r2 < p.get("twin_names", 0.12) + 0.06:
+            elif r2 < p.get("twin_names", 0.12) + p.get("long_names", 0.02) + 0.04:
                 name = rng.choice(["a/b", "../up", "sp ace", "d'Art", "ünï", "a_b", ".", "x" * 300])
             return {"t": "msg", "c": cid, "m": {"k": "join", "name": name, "role": role if role in ROLES else None},
                     "raw_bytes": J(ActionType.JoinGame, agent_info=AgentInfo(name, role))}
@@ -1080,6 +1080,10 @@ def run_sessions(drv, rng, defender_tables, on_fail, stats, n_sessions, n_events
             prof["burst_no_game"] = True
         if prof.get("attacker_max_steps"):
             cfg["coordinator"]["agents"]["Attacker"]["max_steps"] = rng.choice(prof["attacker_max_steps"])
+        if prof.get("defender_max_steps"):
+            # a step limit for the defender and a goal it does not reach by accident
+            cfg["coordinator"]["agents"]["Defender"]["max_steps"] = rng.choice(prof["defender_max_steps"])
+            cfg["coordinator"]["agents"]["Defender"]["goal"]["known_blocks"] = {"192.168.1.6": ["213.47.23.195"]}
         label = f"session#{si}"
         def fail(tags, sig, desc, rep, _label=label):
             on_fail(tags, sig, desc, rep)
@@ -1286,9 +1290,9 @@ def directed_defender(drv, rng, defender_tables, on_fail, stats, n):
                        Action(ActionType.FindServices, {"source_host": src, "target_host": IP("192.168.1.3")}),
                        Action(ActionType.BlockIP, {"source_host": src, "target_host": src, "blocked_host": IP("192.168.1.4")}),
                        Action(ActionType.ExfiltrateData, {"source_host": src, "target_host": c2, "data": Data("u", "d")})]
-            # half of the sessions: the fillers cannot be detected (only the repeats decide); the other half: every action
-            # is rolled 0, so each threshold decision on the window matters (and the window must hold what was really played)
-            filler_roll = 0.9 if i % 2 == 0 else 0.0
+            # half of the sessions: the fillers cannot be detected (only the repeats decide); the other half: a third of the
+            # fillers is rolled 0, so threshold decisions on the window matter (and the window must hold what was really played)
+            filler_roll = 0.9 if i % 2 == 0 else None      # None: each filler rolled 0.9 / 0.9 / 0 at random
             for rep in range(5):
                 if sess.broken or sess.coord._episode_ends.get(PEER(0)):
                     break
@@ -1301,7 +1305,7 @@ def directed_defender(drv, rng, defender_tables, on_fail, stats, n):
                 for _ in range(rng.randint(5, 8)):
                     if sess.coord._episode_ends.get(PEER(0)):
                         break
-                    sess.do(ev_game(sess, 0, rng.choice(fillers), filler_roll))
+                    sess.do(ev_game(sess, 0, rng.choice(fillers), filler_roll if filler_roll else rng.choice([0.9, 0.9, 0.0])))
             stats["directed_defender"] = stats.get("directed_defender", 0) + 1
         finally:
             sess.close()
